@@ -3,8 +3,10 @@
 NAME=$1; PROP=$2; TIER=${3:-quick}
 cd /verif
 git -C /repo apply /verif/seeded/$NAME/patch.diff || { echo "patch does not apply"; exit 2; }
+cp /verif/evidence/$PROP.json /tmp/evidence_$PROP.keep 2>/dev/null   # evidence must only ever describe the unchanged tree
 ./vcheck $PROP --tier $TIER > /tmp/try_$NAME.out 2>&1; RC=$?
 git -C /repo checkout -- .
 python3 /verif/tools/extract.py > /dev/null   # bring coq/gen back to the unchanged tree
+cp /tmp/evidence_$PROP.keep /verif/evidence/$PROP.json 2>/dev/null
 echo "$NAME on $PROP: rc=$RC  $(grep -c '^VIOLATION' /tmp/try_$NAME.out) violation line(s)"
 grep '^VIOLATION' /tmp/try_$NAME.out | head -3 | cut -c1-160
